@@ -409,11 +409,14 @@ RECURSIVE TypedConf(_, _, _, _)
 UnknownViewOk(b, v, base) ==
     /\ P("C08") => HdrOk(b, v.hdr, FALSE)
     /\ (P("C09") \/ P("C12") \/ P("C19")) => (v.data.o = base /\ v.data.n = Len(b))
+    \* every conversion path from an unknown packet (by reference, by value, wrapped into the generic enum first and
+    \* then by reference / by value) IS the typed parser on these bytes: all of its obligations apply (C01, C08, C09,
+    \* C10, C15, C18 ...), and (C12) all paths give the same result
+    /\ \A t \in PacketKinds : \A sfx \in {"", "_val", "_pkt", "_pktval"} :
+          Has(v.conv, t \o sfx) => TypedConf(t, b, v.conv[t \o sfx], base)
     /\ P("C12") =>
-          \A t \in PacketKinds :
-             /\ Has(v.conv, t) => TypedConf(t, b, v.conv[t], base)
-             /\ Has(v.conv, t) /\ Has(v.conv, t \o "_val") => v.conv[t] = v.conv[t \o "_val"]
-             /\ Has(v.conv, t) /\ Has(v.conv, t \o "_pkt") => v.conv[t] = v.conv[t \o "_pkt"]     \* via Packet::from(unknown)
+          \A t \in PacketKinds : \A sfx \in {"_val", "_pkt", "_pktval"} :
+             (Has(v.conv, t) /\ Has(v.conv, t \o sfx)) => v.conv[t] = v.conv[t \o sfx]
 
 ViewOk(kind, b, v, base) ==
     /\ kind \in PacketKinds => (P("C08") => HdrOk(b, v.hdr, TRUE))
